@@ -222,10 +222,10 @@ func observedOnce(bt *gen.Built, pr *progResult, cat string) map[string]bool {
 
 func checkC13(replay string) {
 	r := base.NewRun("C13")
-	r.Rule = "each program model is rendered with the type mentions of the using packages respelled (local alias, alias declared in a third package, parenthesised type, renamed import); per line id the same codes must be reported as in the direct spelling, and each rendering is judged absolutely by the reference model (which is spelling-blind); distinct = (spelling, program) pairs with respelled mentions that carry a MUST verdict"
+	r.Rule = "each program model is rendered with the type mentions of the using packages respelled (local alias, alias declared in a third package, alias of an alias (chain), parenthesised type, renamed import); per line id the same codes must be reported as in the direct spelling, and each rendering is judged absolutely by the reference model (which is spelling-blind); distinct = (spelling, program) pairs with respelled mentions that carry a MUST verdict"
 	r.Assume = []string{"respellings denote identical types (Go alias declarations); compile gate on abnormal exit"}
 	nProg := r.Pick(24, 400)
-	spellings := []string{"alias-local", "alias-third-package", "paren", "import-rename"}
+	spellings := []string{"alias-local", "alias-third-package", "alias-chain", "paren", "import-rename"}
 	var mu sync.Mutex
 	per := map[string]int{}
 	base.Par(nProg*len(spellings), 0, func(job int) {
